@@ -609,7 +609,8 @@ impl Scenario for EarlyStop {
          Oracle: no panic, no deadlock, every managed thread finished within the step budget (50 x reference + 5000), \
          exit status in the allowed set, partial -o file = whole packets and a prefix of the expected filtered data; \
          after the first failed write to stdout at most 8 further writes to it are attempted (at most 4 on the \
-         unchanged tree). A quarter of the check / view command lines carry an (ignored) -o. \
+         unchanged tree); after the stop event at most one batch of 100 packets + 64 KiB of read-ahead are still \
+         read from the input. A quarter of the check / view command lines carry an (ignored) -o. \
          Non-trivial: >= 3 managed threads. Distinct: (input hash, reference trace hash)."
             .into()
     }
